@@ -63,6 +63,8 @@ FIXED = [
     ("lists and dicts returned by Python functions", "C11", "a Python list returned by an exposed function reached the script as a host list (typeof 'undefined'); a cyclic result raised RecursionError"),
     ("object model", "C08", "'inh' in Object.create({inh:1}) was false; F.prototype = {...} was ignored; arrows did not capture this; f.call() inside a getter ran the rest of the program inside the native call; delete o.missing was false; Object.keys([7,8]) was empty"),
     ("Array, typed array and ArrayBuffer constructors", "C04", "new Array(NaN), new Uint8Array(Infinity), String.fromCharCode(-1), console.log('\\ud800') raised host errors; new ArrayBuffer(2**32) allocated 4 GiB"),
+    ("integer literals beyond the double range", "C04", "'\"\\u{FFFFFFFFFFFFFFFFFFFFFFFF}\"' and a 400-digit integer literal raised OverflowError; '1' + '+1' * 3000 raised RecursionError"),
+    ("SyntaxErrors found by the compiler carry", "C04", "a stray break / 300 locals raised JSSyntaxError with line 0; '[' * 400 + ']' * 400 raised RecursionError while converting the result"),
     ("only canonical index strings", "C03", "[10, 20]['\\n0'] and 'abc'['0\\t'] resolved like index 0"),
     ("error objects carry null", "C03", "new Error('m').lineNumber held Python None before the error was thrown"),
 ]
